@@ -66,6 +66,8 @@ package wire
 //@   ensures [consumed] implies(result2 == nil, result0 != nil && 2 <= result1 && result1 <= len(b))
 //@   ensures [on-error] implies(result2 != nil, result0 == nil && result1 == 0)
 //@   ensures [data] implies(result2 == nil, uint64(len(result0.Data)) <= uint64(len(b)) && result0.Offset >= 0)
+//@   ensures [consumed-is-what-was-read] implies(result2 == nil, called("Parse") == 2 && result1 == len(b) - len(callarg("Parse", 1, 0)) + lastresult("Parse", 1) + len(result0.Data) && uint64(len(result0.Data)) == lastresult("Parse", 0))
+//@   ensures [data-is-a-copy] implies(result2 == nil && len(result0.Data) > 0, isfresh(result0.Data))
 //@   modifies nothing
 
 // ---------------- STREAM ----------------
